@@ -147,7 +147,11 @@ func parseNumberFormatter(formatter string, value *value.Number) (string, error)
 		sFixedSign      = 3
 		sScientificSign = 4
 		sPercentSign    = 5
+		sFixedDigit     = 6 // at least one digit after '.'
 	)
+	// precisions above this limit are rejected: fmt itself cannot render them
+	// (it yields "%!(NOVERB)" / "%!(BADPREC)" text) and the accumulator must not overflow
+	const maxFixedPrecision = 1000000
 	var (
 		numFixedPrecision = 0
 		flagPositive      = false
@@ -179,7 +183,7 @@ func parseNumberFormatter(formatter string, value *value.Number) (string, error)
 			}
 		case 'E':
 			switch state {
-			case sBegin, sPositiveSign, sFixedSign:
+			case sBegin, sPositiveSign, sFixedDigit:
 				state = sScientificSign
 				flagScientific = true
 			default:
@@ -187,7 +191,7 @@ func parseNumberFormatter(formatter string, value *value.Number) (string, error)
 			}
 		case '%':
 			switch state {
-			case sBegin, sPositiveSign, sFixedSign:
+			case sBegin, sPositiveSign, sFixedDigit:
 				state = sPercentSign
 				flagPercent = true
 			default:
@@ -196,8 +200,12 @@ func parseNumberFormatter(formatter string, value *value.Number) (string, error)
 		default:
 			if ch >= '0' && ch <= '9' {
 				switch state {
-				case sFixedSign:
+				case sFixedSign, sFixedDigit:
+					state = sFixedDigit
 					numFixedPrecision = numFixedPrecision*10 + int(ch-'0')
+					if numFixedPrecision > maxFixedPrecision {
+						return "", zerr.NewErrorSLOT("无效的格式化字符串")
+					}
 				default:
 					return "", zerr.NewErrorSLOT("无效的格式化字符串")
 				}
@@ -205,6 +213,11 @@ func parseNumberFormatter(formatter string, value *value.Number) (string, error)
 				return "", zerr.NewErrorSLOT("无效的格式化字符串")
 			}
 		}
+	}
+
+	// '.' must be followed by the precision digits ("{#.}", "{#.E}" are malformed)
+	if state == sFixedSign {
+		return "", zerr.NewErrorSLOT("无效的格式化字符串")
 	}
 
 	// 2. get format number string (e.g. "%+.1E" / "%+.1f" / "%.6g")
